@@ -255,9 +255,18 @@ func c12Run(t *testing.T, sc Scenario, res *Result) {
 			}
 			return reflect.ValueOf(v).Len()
 		}
+		extra := int(mix(sc.Seed, 0xe7b) % 4)
+		res.inc(fmt.Sprintf("collection_extra_draws:%d", extra))
 		body = func(x *X) {
+			if extra&1 != 0 {
+				x.draw(rapid.Uint8().AsAny(), "before")
+			}
 			v := x.draw(g, "c")
 			final = v
+			if extra&2 != 0 {
+				x.draw(rapid.Int64().AsAny(), "after")
+				x.draw(rapid.SliceOfN(rapid.Bool(), 0, 3).AsAny(), "after2")
+			}
 			if count(v) >= sc.K {
 				failNow(x, v)
 			}
